@@ -96,6 +96,12 @@ func c01Sink(sink, neigh, e, extra string) string {
 		return fmt.Sprintf(`<p id="s"%s%s v-bind:title="%s"></p>`, extra, attr, e)
 	// bindings to the names of the attributes in which the engine keeps the evaluated output of
 	// v-html / v-text between evaluation and serialisation: refused, or an attribute like any other
+	// static class / style written with {{ }} next to a binding: the bound value is joined to text
+	// that is interpolated - before, not after, the two are put together
+	case "mergeclass":
+		return fmt.Sprintf(`<p id="s"%s%s class="card {{ t }}" :class="%s" data-k="{{ t }}-k"></p>`, extra, attr, e)
+	case "mergestyle":
+		return fmt.Sprintf(`<p id="s"%s%s style="color: {{ t }}" :style="%s" title="a {{ t }}" :title="%s"></p>`, extra, attr, e, e)
 	case "reservedh":
 		return fmt.Sprintf(`<p id="s"%s%s :data-v-html-content="%s">a</p>`, extra, attr, e)
 	case "reservedt":
@@ -428,7 +434,7 @@ func init() {
 	core.Register(&core.Check{
 		ID:    "C01",
 		Level: "exploration",
-		Rule: "all token strings up to the bound over the alphabet " + fmt.Sprintf("%q", c01Alphabet) + " plus 7 non-string values, in every sink (text, v-text, interpolated attr, :attr, v-bind:attr, interpolated namespaced attributes xlink:href / xml:lang / xlink:title inside <svg>; plus, in 4 constructs, bound :class / :style / :title / :data-k whose expression is spelled with {{ }}, and bindings to the engine's internal data-v-html-content / data-v-text-content attribute names, which must be refused or stay attributes) x static neighbourhood (6) x enclosing construct (" + fmt.Sprint(len(c01Constructs)) + ": 13 single-evaluation constructs (incl. a sink below <pre>) swept with the full alphabet, 12 constructs in which one source node is evaluated repeatedly - slot content used twice / in a loop, cached components, template-rooted components, a second render - swept with the 7 tokens that matter for repeated interpolation); plus a sizes part: every token at the start / middle / end of values of 21 lengths around 16 .. 4096 in every sink; " +
+		Rule: "all token strings up to the bound over the alphabet " + fmt.Sprintf("%q", c01Alphabet) + " plus 7 non-string values, in every sink (text, v-text, interpolated attr, :attr, v-bind:attr, interpolated namespaced attributes xlink:href / xml:lang / xlink:title inside <svg>; plus, in 4 constructs, bound :class / :style / :title / :data-k whose expression is spelled with {{ }}, bindings joined to a static class / style that is itself written with {{ }}, and bindings to the engine's internal data-v-html-content / data-v-text-content attribute names, which must be refused or stay attributes) x static neighbourhood (6) x enclosing construct (" + fmt.Sprint(len(c01Constructs)) + ": 13 single-evaluation constructs (incl. a sink below <pre>) swept with the full alphabet, 12 constructs in which one source node is evaluated repeatedly - slot content used twice / in a loop, cached components, template-rooted components, a second render - swept with the 7 tokens that matter for repeated interpolation); plus a sizes part: every token at the start / middle / end of values of 21 lengths around 16 .. 4096 in every sink; " +
 			"oracle: HTML5 re-parse has the same element/attribute-name skeleton as with the value 'zqx', and a canary bound to `secret` never appears. non-trivial = value contains one of < > \" ' & {; distinct = distinct (context, token vector)",
 		Bounds:      map[string]string{"quick": "token strings of length <= 3 in all contexts; text and v-text sinks inside 15 special host elements (raw-text, RCDATA, noscript in both scripting modes, select, table, svg text, style / script inside svg and math) with the host's end tag added to the alphabet, length <= 3", "thorough": "token strings of length <= 3 in all contexts, length 4 in the N0 neighbourhood of every sink and construct"},
 		Assumptions: []string{"golang.org/x/net/html is a faithful HTML5 parser", "v-html sinks and script/style bodies are exempt and never used as sinks"},
@@ -481,7 +487,7 @@ func init() {
 			tokenStrings(c01Alphabet, 3, func(tok []int) {
 				val := joinTokens(c01Alphabet, tok)
 				for _, c := range []string{"top", "forchild", "incbound", "slot2"} {
-					for _, s := range []string{"bclassm", "bstylem", "bclassobjm", "reservedh", "reservedt", "reservedbr"} {
+					for _, s := range []string{"bclassm", "bstylem", "bclassobjm", "reservedh", "reservedt", "reservedbr", "mergeclass", "mergestyle"} {
 						emit(&c01Case{Sink: s, Neigh: "N0", Construct: c, Tokens: append([]int(nil), tok...), Value: val})
 					}
 				}
